@@ -110,5 +110,6 @@ Theorem C13_refuted_sound_partial_inst :
   exists p i th n r, match_single flags_no_inst_extend n p i [] = Some (Some th) /\
     py_inst flags_no_inst_extend n p th = Some r /\ py_eq flags_no_inst_extend n r i = Some false.
 Proof.
-  exists d5_pat, (PImp (PEVar 7) (pphi 0)), [(1, pphi 0)], 30%nat. eexists. vm_compute. repeat split; reflexivity.
+  exists d5_pat, (PImp (PEVar 7) (pphi 0)), [(1, pphi 0)], 30%nat, (PInst (PImp (pphi 0) (pphi 0)) [(0, PEVar 7)]).
+  vm_compute. repeat split; reflexivity.
 Qed.
